@@ -8,8 +8,7 @@
 
 void harness(void) {
   HAVOC_BUFS;
-  struct url u;
-  u.base.is_valid = 1; u.base.has_opaque_path = nondet_bool(); u.host.has = nondet_bool(); u.query.has = nondet_bool(); u.hash.has = nondet_bool(); u.port.has = nondet_bool();
+  ND_URL(u);
   __CPROVER_assume(URL_SHAPE(&u));
   __CPROVER_assume(E_ada_scheme_type_FILE == 6);
   __CPROVER_assume(URL_REC(&u));
